@@ -44,10 +44,43 @@ inline Bytes expand_message_xmd(HashId h, const Bytes &msg, const Bytes &dst_in,
     return uniform;
 }
 
+// NOT RFC 9380 -- a model of one specific deviation, provided only so that a caller can classify a mismatch.
+// For an over-long DST (> 255 bytes) b_0 is computed with DST_prime = H("H2C-OVERSIZE-DST-" || DST) || len as in the
+// RFC, but b_1 .. b_ell are computed with (b_0 || I2OSP(b_in_bytes, 1)) in place of DST_prime, which is what happens
+// when an implementation keeps the reduced DST in the same buffer that later receives b_0. For DSTs of at most
+// 255 bytes this is identical to expand_message_xmd.
+inline Bytes expand_message_xmd_oversize_dst_clobbered(HashId h, const Bytes &msg, const Bytes &dst_in, size_t len_in_bytes) {
+    if (dst_in.size() <= 255) return expand_message_xmd(h, msg, dst_in, len_in_bytes);
+    const size_t b_in_bytes = hash_len(h), s_in_bytes = hash_block(h);
+    size_t ell = (len_in_bytes + b_in_bytes - 1) / b_in_bytes;
+    if (ell > 255 || len_in_bytes > 65535) return Bytes();
+    Bytes dst_prime = hash(h, cat(str("H2C-OVERSIZE-DST-"), dst_in));
+    dst_prime.push_back((uint8_t) b_in_bytes);
+    Bytes msg_prime(s_in_bytes, 0);
+    msg_prime = cat(msg_prime, msg);
+    msg_prime.push_back((uint8_t)(len_in_bytes >> 8));
+    msg_prime.push_back((uint8_t) len_in_bytes);
+    msg_prime.push_back(0);
+    Bytes b_0 = hash(h, cat(msg_prime, dst_prime));
+    Bytes clobbered = b_0;  // takes the place of DST_prime from here on
+    clobbered.push_back((uint8_t) b_in_bytes);
+    Bytes uniform, b_prev(b_in_bytes, 0);
+    for (size_t i = 1; i <= ell; i++) {
+        Bytes x(b_in_bytes);
+        for (size_t j = 0; j < b_in_bytes; j++) x[j] = b_0[j] ^ b_prev[j];
+        x.push_back((uint8_t) i);
+        b_prev = hash(h, cat(x, clobbered));
+        uniform = cat(uniform, b_prev);
+    }
+    uniform.resize(len_in_bytes);
+    return uniform;
+}
+
 // ---------------------------------------------------------------- hash_to_field (section 5.2), m = 1, L = 48
-inline std::vector<U> h2c_hash_to_field_25519(HashId h, const Bytes &msg, const Bytes &dst, size_t count) {
+// (quirk = true substitutes expand_message_xmd_oversize_dst_clobbered; it only matters for len(DST) > 255.)
+inline std::vector<U> h2c_hash_to_field_25519(HashId h, const Bytes &msg, const Bytes &dst, size_t count, bool quirk = false) {
     const size_t L = 48;  // ceil((255 + 128) / 8)
-    Bytes uniform = expand_message_xmd(h, msg, dst, count * L);
+    Bytes uniform = quirk ? expand_message_xmd_oversize_dst_clobbered(h, msg, dst, count * L) : expand_message_xmd(h, msg, dst, count * L);
     std::vector<U> out;
     for (size_t i = 0; i < count; i++) out.push_back(fp_red(u_from_be(sub(uniform, i * L, L))));  // OS2IP(tv) mod p
     return out;
@@ -105,25 +138,25 @@ inline Pt h2c_map_to_edwards25519(const U &u) {
 
 // hash_to_curve (ro = true) / encode_to_curve (ro = false) of section 3, with h_eff = 8; the result as a point.
 // dst is used exactly as given.
-inline Pt h2c_edwards25519_pt(HashId h, bool ro, const Bytes &msg, const Bytes &dst) {
+inline Pt h2c_edwards25519_pt(HashId h, bool ro, const Bytes &msg, const Bytes &dst, bool quirk = false) {
     if (ro) {
-        std::vector<U> u = h2c_hash_to_field_25519(h, msg, dst, 2);
+        std::vector<U> u = h2c_hash_to_field_25519(h, msg, dst, 2, quirk);
         Pt q0 = h2c_map_to_edwards25519(u[0]), q1 = h2c_map_to_edwards25519(u[1]);
         return pt_mul(U(8), pt_add(q0, q1));  // clear_cofactor(Q0 + Q1)
     }
-    std::vector<U> u = h2c_hash_to_field_25519(h, msg, dst, 1);
+    std::vector<U> u = h2c_hash_to_field_25519(h, msg, dst, 1, quirk);
     return pt_mul(U(8), h2c_map_to_edwards25519(u[0]));
 }
 // The same, as the 32-byte RFC 8032 encoding of the point.
 // h = H_SHA512 gives the suites edwards25519_XMD:SHA-512_ELL2_RO_ / _NU_; h = H_SHA256 is the same construction
 // with SHA-256 as the expand_message_xmd hash.
-inline Bytes h2c_edwards25519(HashId h, bool ro, const Bytes &msg, const Bytes &dst) {
-    return pt_encode(h2c_edwards25519_pt(h, ro, msg, dst));
+inline Bytes h2c_edwards25519(HashId h, bool ro, const Bytes &msg, const Bytes &dst, bool quirk = false) {
+    return pt_encode(h2c_edwards25519_pt(h, ro, msg, dst, quirk));
 }
 
 // ristretto255 hash (RFC 9380 appendix B): uniform = expand_message_xmd(msg, DST, 64); one-way map of RFC 9496.
-inline Bytes h2c_ristretto255(HashId h, const Bytes &msg, const Bytes &dst) {
-    return ristretto_from_uniform(expand_message_xmd(h, msg, dst, 64));
+inline Bytes h2c_ristretto255(HashId h, const Bytes &msg, const Bytes &dst, bool quirk = false) {
+    return ristretto_from_uniform(quirk ? expand_message_xmd_oversize_dst_clobbered(h, msg, dst, 64) : expand_message_xmd(h, msg, dst, 64));
 }
 
 }  // namespace ref
